@@ -8,8 +8,8 @@ Open Scope list_scope.
 Ltac kill_err H := unfold err_at in H; try destruct (_ =? 0)%Z; discriminate.
 
 (** every parameter one reference resolves to carries the reference's number *)
-Lemma resolve_one_numbers e tables aliases dt names r ps :
-  resolve_one e tables aliases dt names r = Ok ps -> Forall (fun p => p_num p = ref_number r) ps.
+Lemma resolve_one_numbers e tables bare aliases dt names r ps :
+  resolve_one e tables bare aliases dt names r = Ok ps -> Forall (fun p => p_num p = ref_number r) ps.
 Proof.
   unfold resolve_one. intros H.
   destruct (pr_parent r) as [n| |] eqn:Ep.
@@ -59,20 +59,21 @@ Lemma resolve_refs_numbers e rvs refs names ps :
      let tables := map table_of_rangevar rvs' in
      let aliases := rev (flat_map (fun rv => if is_nil (kid "Alias" rv) then []
                                              else [(str_of "Aliasname" (kid "Alias" rv), table_of_rangevar rv)]) rvs') in
-     forall l, resolve_one e tables aliases (match tables with t :: _ => Some t | [] => None end) names r = Ok l ->
+     let bare := map table_of_rangevar (filter (fun rv => is_nil (kid "Alias" rv)) rvs') in
+     forall l, resolve_one e tables bare aliases (match tables with t :: _ => Some t | [] => None end) names r = Ok l ->
                List.length l = 1%nat) ->
   map p_num ps = map ref_number refs.
 Proof.
   unfold resolve_catalog_refs. cbv zeta.
   set (rvs' := filter _ rvs). set (tables := map table_of_rangevar rvs').
-  set (aliases := rev _). set (dt := match tables with t :: _ => Some t | [] => None end).
+  set (aliases := rev _). set (bare := map table_of_rangevar (filter _ rvs')). set (dt := match tables with t :: _ => Some t | [] => None end).
   revert ps. induction refs as [|r rest IH]; intros ps H Har.
   - inversion H; subst. reflexivity.
-  - destruct (resolve_one e tables aliases dt names r) as [a|m|m] eqn:Ea; cbn [bind] in H; try discriminate.
+  - destruct (resolve_one e tables bare aliases dt names r) as [a|m|m] eqn:Ea; cbn [bind] in H; try discriminate.
     match type of H with bind ?x _ = _ => destruct x as [b|m|m] eqn:Eb; cbn [bind] in H; try discriminate end.
     inversion H; subst.
     pose proof (Har r (or_introl eq_refl) a Ea) as Hl.
-    pose proof (resolve_one_numbers _ _ _ _ _ _ _ Ea) as Hn.
+    pose proof (resolve_one_numbers _ _ _ _ _ _ _ _ Ea) as Hn.
     destruct a as [|p [|p2 a']]; try discriminate. inversion Hn; subst.
     simpl. f_equal; [assumption|]. apply IH; [reflexivity|]. intros r' Hr'. apply Har. right. exact Hr'.
 Qed.
@@ -171,8 +172,8 @@ Proof.
   - fold nums in Hr. unfold refs. apply params_numbered; [|exact Hgap].
     intros z. destruct (sorted_unique_numbers refs0) as [_ Hin]. cbv zeta in Hin. rewrite <- Hin.
     fold refs. rewrite <- Hr, zsort_In. destruct (dedup_z_spec nums) as [_ Hd]. apply Hd.
-  - intros r Hin rvs' tables aliases l Hl. specialize (Hall r Hin).
-    unfold ref_class, ref_arity in Hall. fold rvs' tables aliases in Hall. rewrite Hl in Hall.
+  - intros r Hin rvs' tables aliases bare l Hl. specialize (Hall r Hin).
+    unfold ref_class, ref_arity in Hall. fold rvs' tables aliases bare in Hall. rewrite Hl in Hall.
     destruct l as [|p [|p2 l']]; [|reflexivity|discriminate].
     destruct (pr_parent r) as [n| |]; [destruct (is_kind "FuncCall" n)|..]; discriminate.
 Qed.
@@ -214,8 +215,8 @@ Proof.
   rewrite (resolve_refs_numbers _ _ _ _ _ Hres).
   - unfold refs. rewrite positional_numbers.
     rewrite <- (binds_text_order refs0 marks Hs Hp). rewrite map_map. reflexivity.
-  - intros r Hin rvs' tables aliases l Hl. specialize (Hall r Hin).
-    unfold ref_class, ref_arity in Hall. fold rvs' tables aliases in Hall. rewrite Hl in Hall.
+  - intros r Hin rvs' tables aliases bare l Hl. specialize (Hall r Hin).
+    unfold ref_class, ref_arity in Hall. fold rvs' tables aliases bare in Hall. rewrite Hl in Hall.
     destruct l as [|p [|p2 l']]; [|reflexivity|discriminate].
     destruct (pr_parent r) as [n| |]; [destruct (is_kind "FuncCall" n)|..]; discriminate.
 Qed.
